@@ -26,6 +26,7 @@ ND = ['the stack switch itself (co_context)', 'continuation on exactly one threa
 
 
 def run(facts, rep):
+    d5_resume_task_survives_cancellation(facts, rep)
     d1_handshake(facts, rep)
     d2_enqueue(facts, rep)
     d3_actions(facts, rep)
@@ -203,3 +204,23 @@ def d4_wait(facts, rep):
         rep.ob('D4', 'K3', fn, 'the cleanup action drops the coroutine\'s arena reference and caches the coroutine', ok, 'reference leak / coroutine lost',
                key_extra='cleanup')
     rep.floor('D4', 3, 'wait coverage')
+
+
+def d5_resume_task_survives_cancellation(facts, rep):
+    """The resume task is an ordinary task of the arena's default context as far as the dispatcher is concerned: when that context
+    is cancelled (any task running in it may call current_context()->cancel_group_execution()), the dispatcher calls cancel()
+    instead of execute().  The task stands for a suspended coroutine that resume() has promised to continue ("never
+    forgotten"): cancel() must do what execute() does - on every path it reaches execute() of the same task or the stack switch
+    itself (task_dispatcher::resume).  An assert-only cancel() drops the suspended code in release builds."""
+    n = 0
+    for fn in facts.fns.values():
+        if not fn.p.endswith('suspend_point_type::resume_task::cancel'):
+            continue
+        n += 1
+        cs = [c for c in calls(fn) if (c[3] or {}).get('n') in ('execute', 'resume')]
+        ok = bool(cs) and every_path_passes(fn, 'entry', lambda p, e: p in set(c[0] for c in cs))[0]
+        rep.ob('D5', 'K7', fn, 'a cancelled resume task still continues the suspended code (cancel() does what execute() does)', ok,
+               'cancel() returns without resuming the target: when the arena\'s default context has been cancelled, a resume task that a '
+               'thread takes from the resume stream is dropped - the suspended code never continues and the wait that covers it hangs')
+    if n < 1:
+        raise AnalysisBroken('resume_task::cancel not found')
